@@ -887,8 +887,15 @@ inline std::string gen_key(vf::Rng& r, const GenOpts& o) {
   return k;
 }
 
-// a syntactically valid JSON number spelling of any shape
+inline std::string gen_number_text_any(vf::Rng& r);
+// a syntactically valid JSON number spelling of any shape whose value is finite
 inline std::string gen_number_text(vf::Rng& r) {
+  std::string t = gen_number_text_any(r);
+  double d = strtod(t.c_str(), nullptr);
+  if (std::isinf(d)) return t[0] == '-' ? "-1.7976931348623157e308" : "1.7976931348623157e308";
+  return t;
+}
+inline std::string gen_number_text_any(vf::Rng& r) {
   std::string t;
   char b[80];
   switch (r.below(12)) {
